@@ -69,7 +69,15 @@ def main(argv):
         if replay:
             case = json.load(open(replay, encoding='utf-8'))
             try:
-                mod.replay(case.get('case', case))
+                try:
+                    mod.replay(case.get('case', case))
+                except (common.Violation, common.HarnessError):
+                    raise
+                except Exception as e:  # noqa: BLE001
+                    v2 = common.repo_exception_as_violation(e, case.get('case', case))
+                    if v2 is None:
+                        raise
+                    raise v2 from e
             except common.Violation as v:
                 print('VIOLATION property=%s replay=%s' % (prop, replay))
                 print('  ' + v.msg[:1000])
